@@ -115,6 +115,10 @@ def check(writer, field, value, ctx=None, mode=None):
         return fails
     where = f"{writer}: record field {field} = {value!r} (converter built by {mode})"
     path = os.path.join(tmpdir(), f"{os.getpid()}.{writer}")
+    if mode == "merge-late":
+        from pathlib import Path
+
+        path = Path(path)   # the writers and loaders take str and Path alike
     if writer == "epm":
         try:
             curies.write_extended_prefix_map(conv, path)
